@@ -8,6 +8,7 @@ package dbsm
 
 import (
 	"fmt"
+	"strings"
 
 	"pgregory.net/rapid"
 
@@ -52,6 +53,7 @@ type Program struct {
 	Seed     int64      `json:"seed"` // tower heights of the memtables
 	Pad      vlib.Str   `json:"pad"`  // byte the value tokens are padded with (values are not only ASCII)
 	Big      bool       `json:"multi_mib_tables,omitempty"`
+	Many     bool       `json:"many_tables,omitempty"`
 	Free     bool       `json:"free"` // flusher runs free (no gates)
 	AutoRead bool       `json:"auto_read"`
 	Ops      []Op       `json:"ops"`
@@ -75,8 +77,8 @@ type Profile struct {
 
 func genCfg(t *rapid.T, small bool) Cfg {
 	c := Cfg{
-		SkipListMaxLevel: rapid.SampledFrom([]int{0, 1, 2, 4, 9, 12}).Draw(t, "slMax"),
-		SkipListP:        rapid.SampledFrom([]float64{0, 0.1, 0.25, 0.5, 0.75, 0.9}).Draw(t, "slP"),
+		SkipListMaxLevel: rapid.SampledFrom([]int{0, 1, 2, 4, 9, 12, 33}).Draw(t, "slMax"),
+		SkipListP:        rapid.SampledFrom([]float64{0, 0.1, 0.25, 0.5, 0.75, 0.9, 0.99, 1}).Draw(t, "slP"),
 		ImmBuf:           rapid.SampledFrom([]int{0, 0, 1, 1, 2, 4, 10}).Draw(t, "immBuf"),
 		Block:            rapid.SampledFrom([]int{0, 1, 1, 20, 60, 200, 4096}).Draw(t, "block"),
 		L0Target:         rapid.SampledFrom([]int{1, 1, 2, 2, 3, 4, 5, 0}).Draw(t, "l0"),
@@ -131,7 +133,10 @@ func genProgram(t *rapid.T, pf Profile) Program {
 	seen := map[string]bool{}
 	for len(p.Keys) < nk {
 		var k string
-		if rapid.IntRange(0, 5).Draw(t, "freshKey") == 0 {
+		if fk := rapid.IntRange(0, 59).Draw(t, "freshKey"); fk == 59 {
+			// a key longer than every 16-bit length field and every block
+			k = strings.Repeat(rapid.SampledFrom([]string{"K", "\xfe", "k@"}).Draw(t, "longKeyPat"), rapid.SampledFrom([]int{1000, 40000, 70000}).Draw(t, "longKeyLen"))
+		} else if fk < 10 {
 			k = string(rapid.SliceOfN(rapid.Byte(), 1, 12).Draw(t, "rawkey"))
 		} else {
 			k = rapid.SampledFrom(vlib.Pool).Draw(t, "poolkey")
@@ -164,6 +169,47 @@ func genProgram(t *rapid.T, pf Profile) Program {
 	}
 	n := rapid.IntRange(10, pf.MaxOps).Draw(t, "nops")
 	cur := p.Cfg
+	if mode := rapid.IntRange(0, 399).Draw(t, "rareMode"); mode == 211 && pf.Name != "C07" {
+		// many tables: 150 keys written one per commit with a 1-byte memtable threshold, so that
+		// levels hold dozens to hundreds of single-key tables (three-digit table indices)
+		p.Keys = nil
+		for i := 0; i < 150; i++ {
+			p.Keys = append(p.Keys, vlib.Str(fmt.Sprintf("t%03d", i)))
+		}
+		nk = len(p.Keys)
+		p.Cfg.MemThreshold, p.Cfg.L0Target, p.Cfg.Ratio, p.Cfg.Block, p.Cfg.ImmBuf = 1, rapid.SampledFrom([]int{2, 5}).Draw(t, "mtL0"), 10, 4096, 4
+		cur = p.Cfg
+		p.Many = true
+		perm := rapid.Permutation(seqInts(150)).Draw(t, "mtOrder")
+		rounds := rapid.IntRange(1, 2).Draw(t, "mtRounds")
+		for r := 0; r < rounds; r++ {
+			for _, k := range perm {
+				p.Ops = append(p.Ops, Op{Op: "update", Ups: []UpOp{{Op: "set", K: k, VLen: 0}}})
+			}
+			p.Ops = append(p.Ops, Op{Op: "fidle"}, Op{Op: "checkall"})
+			if pf.Reopen > 0 {
+				c := cur
+				p.Ops = append(p.Ops, Op{Op: "reopen", Cfg: &c}, Op{Op: "checkall"})
+			}
+		}
+		n = rapid.IntRange(3, 10).Draw(t, "nopsAfterMany")
+	} else if mode == 97 && rapid.Bool().Draw(t, "marathonCoin") {
+		// marathon: tens of thousands of small commits (timestamps, counters and lists far beyond 2^16)
+		// defaults: the marathon is about counters and lists, not about flush or tower cost (a
+		// two-level skiplist or 200-byte blocks would make 70 000 entries quadratic)
+		p.Cfg.MemThreshold, p.Cfg.SkipListMaxLevel, p.Cfg.SkipListP, p.Cfg.Block = 0, 12, 0.5, 4096
+		// ... and short keys of its own: 70 000 commits on a 70 KB key would be a gigabyte of wal
+		p.Keys = nil
+		for i := 0; i < 6; i++ {
+			p.Keys = append(p.Keys, vlib.Str(fmt.Sprintf("m%d", i)))
+		}
+		nk = len(p.Keys)
+		cur = p.Cfg
+		p.Ops = append(p.Ops, Op{Op: "begin", RW: true}, Op{Op: "get", T: 0, K: 0})
+		p.Ops = append(p.Ops, Op{Op: "marathon", N: rapid.SampledFrom([]int{300, 70000}).Draw(t, "maraN")})
+		p.Ops = append(p.Ops, Op{Op: "checkall"})
+		n = rapid.IntRange(5, 30).Draw(t, "nopsAfterMarathon")
+	}
 	if (pf.Name == "C01" || pf.Name == "C02") && rapid.IntRange(0, 79).Draw(t, "bigTables") == 41 {
 		// size class: ~100 commits of 64 KiB values with the default (4 MiB) memtable threshold,
 		// i.e. tables whose data region is several MiB, then flusher work / reopen cycles
@@ -236,6 +282,26 @@ func genProgram(t *rapid.T, pf Profile) Program {
 		}
 		p.Ops = append(p.Ops, o)
 	}
+	// values of 64 KiB and more are decoded byte by byte through reflection by the engine
+	// (binary.Read into *[]byte); together with a compaction after every commit that is
+	// minutes per program. Keep at most three of them, and none when every commit rotates.
+	if !p.Big {
+		huge := 0
+		clamp := func(v *int) {
+			if *v > 5000 {
+				huge++
+				if huge > 3 || p.Cfg.MemThreshold == 1 {
+					*v = 300
+				}
+			}
+		}
+		for i := range p.Ops {
+			clamp(&p.Ops[i].VLen)
+			for j := range p.Ops[i].Ups {
+				clamp(&p.Ops[i].Ups[j].VLen)
+			}
+		}
+	}
 	return p
 }
 
@@ -276,6 +342,14 @@ func genTemplate(t *rapid.T, nk int) []Op {
 			out = append(out, o)
 			ib++
 		}
+	}
+	return out
+}
+
+func seqInts(n int) []int {
+	out := make([]int, n)
+	for i := range out {
+		out[i] = i
 	}
 	return out
 }
